@@ -10,7 +10,7 @@ CLAIMED = {
     "C08": ("exploration", "4 C08", "deterministic simulation: filter builds under shuttle schedules, membership oracle plus 6-sigma binomial test on seeded non-member probes",
             "Same simulated world as C07 through try_build_filter for every backend family and every filter width; no-false-negative is checked for every inserted key, the false-positive rate statistically per case.",
             "Trusted as for C07; the FPR clause is statistical (6 sigma, false-alarm probability per case < 1e-8)."),
-    "C13": ("exploration", "4 C13", "deterministic simulation: writer threads under shuttle (seeded random and PCT schedulers) with add-only scheduling points before every atomic operation; bit-exact storage model, exact linearizability check for swap",
+    "C13": ("exploration", "4 C13", "deterministic simulation: writer threads under shuttle (seeded random and PCT schedulers) with a type-level seam that puts a scheduling point in front of every atomic memory operation (present or added later); bit-exact storage model, exact per-bit linearizability check for swap; Miri many-seeds as an independent second scheduler and race detector",
             "Seeded search over interleavings of the atomic operations of 2-3 writers (4 for swap) for every word type, width and index placement; every storage bit is compared with a model after join. Sampling of schedules, not enumeration.",
             "Sequentially consistent interleavings at the granularity of atomic operations (the granularity at which a lost update exists). Trusted: shuttle, the bit-array model."),
     "C17": ("fault_enumeration", "4 C17", "deterministic simulation with fault enumeration: every single-fault placement (key/value item x pass, rewind ordinal, disk budgets) per seeded template, under shuttle",
